@@ -8,13 +8,27 @@ none invented, recorded types = types re-inferred after a serde reload = OpType,
 """
 from . import lib, optgen, opt_common as oc
 
-INVS = ["InvAccepted", "InvInterface", "InvSends", "InvTypes", "InvReload", "InvMeaning"]
+INVS = ["InvAccepted", "InvInterface", "InvSends", "InvTypes", "InvReload", "InvMeaning", "InvFresh"]
 
 
 def run(chk):
     gen = optgen.cases(chk.tier, chk.seed)
     recs = oc.run_cases(chk, gen, "gen", INVS, nsamples=6 if chk.tier == "quick" else 24)
     chk.traces += sum(1 for r in recs if r["res"] == "ok")
+    # specification -> implementation: EVERY program the specification's typing relation accepts over a small alphabet
+    # (spec/ProgGen.tla, enumerated by TLC) goes through the real optimiser; a program the real add_node rejects is a
+    # disagreement about typing and is reported
+    from . import proggen
+    spec_progs = proggen.enumerate_programs(chk, "mix", 3 if chk.tier == "quick" else 4)
+    sg = [{"id": 500000 + k, "name": n, "prog": pr, "seed": chk.seed} for k, (n, pr, _tys) in enumerate(spec_progs)]
+    recs3 = oc.run_cases(chk, sg, "specgen", INVS, nsamples=4 if chk.tier == "quick" else 8, timeout=1500 if chk.tier == "quick" else 9000)
+    chk.note("programs_enumerated_from_the_specification", len(sg))
+    chk.traces += sum(1 for r in recs3 if r["res"] == "ok")
+    for r in recs3:
+        if r["res"] == "builderr":
+            chk.violation({"case": "specgen", "class": "program accepted by CCTyping is rejected by add_node"},
+                          {"case": next(c for c in sg if c["id"] == r["id"]), "msg": r.get("msg")})
+            break
     comp = oc.compile_cases(chk.tier, chk.seed)
     recs2 = oc.run_cases(chk, comp, "pipeline", INVS, nsamples=2 if chk.tier == "quick" else 6)
     chk.traces += sum(1 for r in recs2 if r["res"] == "ok")
